@@ -41,6 +41,10 @@ type (
 
 func TestMain(m *testing.M) { engine.Main(m, "C02", "exploration") }
 
+// keyCNFDummy: a CNF policy in which some shareholder belongs to every maximal unqualified set. cnf.InducedMSP gives
+// that shareholder no row, so MSP.Accepts / CanReconstruct / Reconstruct reject every qualified set that lists it.
+const keyCNFDummy = "cnf/dummy-party"
+
 // dummyParties: parties contained in every maximal unqualified set (their presence never matters).
 func dummyParties(p *policy.Policy) uint64 {
 	d := p.Full()
@@ -134,6 +138,9 @@ func policyBody(cases []pcase) func(*engine.X) {
 		// maximal unqualified sets (brute-force helper paths are defined for identifiers <= 64 only)
 		if pc.a.Max64 || p.Kind == policy.Threshold || p.Kind == policy.Unanimity {
 			want := p.MaximalUnqualified()
+			if len(want) == 1 && want[0] == 0 {
+				want = nil // every single party is qualified: only the empty set is unqualified, and it is not a clause
+			}
 			var got []uint64
 			bad := false
 			for s := range ac.MaximalUnqualifiedSetsIter() {
@@ -147,12 +154,13 @@ func policyBody(cases []pcase) func(*engine.X) {
 			if bad || !slices.Equal(got, want) {
 				x.Failf("policy/mus/"+p.Kind.String(), "%s: MaximalUnqualifiedSetsIter yields masks %v, the truth table has %v", key, got, want)
 			}
-			// conversion to CNF keeps the policy
-			if c, err := cnf.ConvertToCNF(ac); err != nil {
-				if len(want) > 0 {
-					x.Failf("policy/tocnf", "%s: ConvertToCNF failed%s", key, errLine(err))
-				}
-			} else if noSingletonQualified(p) { // the CNF universe is the union of the sets: a party that is qualified alone is in none
+			// conversion to CNF keeps the policy. The CNF universe is the union of the maximal unqualified sets, so the
+			// conversion is only defined when no shareholder is qualified on its own.
+			if !noSingletonQualified(p) {
+				// outside the domain
+			} else if c, err := cnf.ConvertToCNF(ac); err != nil {
+				x.Failf("policy/tocnf", "%s: ConvertToCNF failed%s", key, errLine(err))
+			} else {
 				for a := uint64(0); a <= p.Full(); a++ {
 					if c.IsQualified(catalog.Subset(ids, a)...) != p.Qualified(a) {
 						x.Failf("policy/tocnf", "%s: ConvertToCNF changes the answer for subset mask %d", key, a)
@@ -281,7 +289,7 @@ func mspBody[F algebra.PrimeFieldElement[F]](c fctx[F], cases []pcase) func(*eng
 				return
 			}
 			if mustRefuse {
-				x.Failf("refusal/hierarchical-field-size", "%s: InducedMSP accepted a hierarchical policy that violates Tassa's condition", key)
+				x.Failf(fieldSizeKey(ids), "%s: InducedMSP accepted a hierarchical policy that violates Tassa's condition (largest identifier %d, largest threshold %d)", key, slices.Max(ids), p.MaxThreshold())
 				return
 			}
 		} else if err != nil {
@@ -302,17 +310,14 @@ func mspBody[F algebra.PrimeFieldElement[F]](c fctx[F], cases []pcase) func(*eng
 				noRows |= 1 << uint(party)
 			}
 		}
-		if pc.e.Refusal == catalog.OneColumn {
-			// every single party is qualified: one-column programme, dealing over it is refused by design
+		if v.M.C == 1 {
+			// one-column programme (every single party is qualified): dealing over it is refused by design
 			x.Case(key + "/one-column")
-			if v.M.C != 1 {
-				x.Observe(key, "columns", v.M.C)
-			}
 			s, err := kw.NewInducedScheme(m)
 			if err == nil {
 				_, err = s.Deal(kw.NewSecret(c.el(big.NewInt(7))), c.reader("onecol"))
 			}
-			if err == nil && v.M.C == 1 {
+			if err == nil {
 				x.Failf("refusal/one-column", "%s: dealing over a one-column span programme was not refused", key)
 			}
 		}
@@ -327,7 +332,7 @@ func mspBody[F algebra.PrimeFieldElement[F]](c fctx[F], cases []pcase) func(*eng
 			acc := m.Accepts(sub...)
 			fk := "msp/accepts/" + p.Kind.String()
 			if a&noRows != 0 && a&noRows&^dummies == 0 && p.Kind == policy.CNF {
-				fk = "msp/cnf-dummy-party" // the set contains a party that sits in every maximal unqualified set and got no row
+				fk = keyCNFDummy // the set contains a party that sits in every maximal unqualified set and got no row
 			}
 			if acc != want {
 				x.Failf(fk, "%s: MSP.Accepts(%v) = %v but the policy says %v (rank test on the library's matrix: %v)", key, sub, acc, want, span)
@@ -433,8 +438,10 @@ func TestCheck(t *testing.T) {
 	engine.Explore(func(x *engine.X) { rc[x.Choose("case", len(rc))].run(x) }, engine.Opts{Name: "refusals", Budget: engine.Budget(time.Minute, 10*time.Minute)})
 
 	engine.Explore(mspBody(kc, all), engine.Opts{Name: "msp/k256", Budget: engine.Budget(3*time.Minute, 20*time.Minute)})
-	engine.Explore(mspBody(ec, all), engine.Opts{Name: "msp/ed25519", Budget: engine.Budget(3*time.Minute, 20*time.Minute)})
-	engine.Explore(mspBody(bc, all), engine.Opts{Name: "msp/bls12381", Budget: engine.Budget(3*time.Minute, 20*time.Minute)})
+	// the other two fields: everything but the n=6 CNFs / 5-leaf trees on non-ord assignments
+	rest := buildCases(std, func(e catalog.Entry, a catalog.IDAssignment) bool { return !huge(e) || a.Name == "ord" })
+	engine.Explore(mspBody(ec, rest), engine.Opts{Name: "msp/ed25519", Budget: engine.Budget(3*time.Minute, 20*time.Minute)})
+	engine.Explore(mspBody(bc, rest), engine.Opts{Name: "msp/bls12381", Budget: engine.Budget(3*time.Minute, 20*time.Minute)})
 
 	dealSections(std, kc, ec, bc)
 }
